@@ -19,7 +19,7 @@ open BstreamVerif.Drv
 /-- stateless suites: (op words, impl words) → (model answer, monitor reason) -/
 def statelessOp (suite : String) (ws impl : List String) : Option (String × String) :=
   match suite with
-  | "range" => some (RangeDrv.op ws, RangeDrv.monitor ws impl)
+  | "range" => some (RangeDrv.opT ws, RangeDrv.monitor ws impl)
   | "cursor" => some (CursorDrv.op ws, CursorDrv.monitor ws impl)
   | "oneblock" => some (FilesDrv.opOneBlock ws, FilesDrv.monitorOneBlock ws impl)
   | _ => none
